@@ -62,6 +62,7 @@ func (t *upstreamTransport) getTransport() *http.Transport {
 			TLSClientConfig:       &tls.Config{InsecureSkipVerify: t.insecureSkipVerify},
 			ExpectContinueTimeout: 1 * time.Second,
 		}
+		verifPatchTransport(t.transport)
 	}
 
 	return t.transport
